@@ -44,12 +44,12 @@ func TestVerif_C11Remote(t *testing.T) {
 			be, srv = testutils.SMTPServer(t, "127.0.0.1:"+smtpPort)
 		}
 		zones := map[string]mockdns.Zone{
-			"example.invalid.":    {MX: []net.MX{{Host: "mx.example.invalid.", Pref: 10}}},
-			"other.invalid.":      {MX: []net.MX{{Host: "mx.example.invalid.", Pref: 10}}},
+			"example.invalid.": {MX: []net.MX{{Host: "mx.example.invalid.", Pref: 10}}},
+			"other.invalid.":   {MX: []net.MX{{Host: "mx.example.invalid.", Pref: 10}}},
 			// an internationalized recipient domain, in both spellings (the resolver mock is a plain map)
 			"почта.example.invalid.":        {MX: []net.MX{{Host: "mx.example.invalid.", Pref: 10}}},
 			"xn--80a1acny.example.invalid.": {MX: []net.MX{{Host: "mx.example.invalid.", Pref: 10}}},
-			"mx.example.invalid.": {A: []string{"127.0.0.1"}},
+			"mx.example.invalid.":           {A: []string{"127.0.0.1"}},
 		}
 		tgt := testTarget(t, zones, nil, nil)
 		tgt.connReuseLimit = 10
@@ -63,6 +63,7 @@ func TestVerif_C11Remote(t *testing.T) {
 			t.Fatal(err)
 		}
 		tgt.limits = g
+		panics := 0
 		for mi := 0; mi < 1+r.intn(4); mi++ {
 			reqtls := r.chance(35)
 			if be != nil {
@@ -77,35 +78,45 @@ func TestVerif_C11Remote(t *testing.T) {
 					be.DataErr = &smtp.SMTPError{Code: 451, EnhancedCode: smtp.EnhancedCode{4, 0, 0}, Message: "later"}
 				}
 			}
-			meta := &module.MsgMetadata{ID: fmt.Sprintf("v%d", mi), SMTPOpts: smtp.MailOptions{RequireTLS: reqtls}}
-			d, err := tgt.Start(ctx, meta, "sender@example.com")
-			if err != nil {
-				t.Fatalf("case %d: Start: %v", ci, err)
-			}
-			anyOK := false
-			rcs := []string{"rcpt@example.invalid", "second@other.invalid"}[:1+r.intn(2)]
-			if (ci+mi)%3 == 0 { // chosen without drawing: earlier histories keep their shape
-				rcs = append([]string{}, rcs...)
-				rcs = append(rcs, "third@почта.example.invalid")
-			}
-			for _, rc := range rcs {
-				if err := d.AddRcpt(ctx, rc, smtp.RcptOptions{}); err == nil {
-					anyOK = true
-				} else if reqtls {
-					refusedReqTLS++
+			// a release of a permit that is not held panics in the limiter: an observation, not a crash
+			func() {
+				defer func() {
+					if p := recover(); p != nil {
+						panics++
+					}
+				}()
+				meta := &module.MsgMetadata{ID: fmt.Sprintf("v%d", mi), SMTPOpts: smtp.MailOptions{RequireTLS: reqtls}}
+				d, err := tgt.Start(ctx, meta, "sender@example.com")
+				if err != nil {
+					// no message permit to be had: an earlier delivery kept its own (for example by panicking on the way out)
+					panics++
+					return
 				}
-			}
-			bodyOK := false
-			if anyOK {
-				hdr := textproto.Header{}
-				hdr.Add("Subject", "x")
-				bodyOK = d.Body(ctx, hdr, buffer.MemoryBuffer{Slice: []byte("hi\r\n")}) == nil
-			}
-			if bodyOK && !r.chance(15) {
-				d.Commit(ctx)
-			} else {
-				d.Abort(ctx)
-			}
+				anyOK := false
+				rcs := []string{"rcpt@example.invalid", "second@other.invalid"}[:1+r.intn(2)]
+				if (ci+mi)%3 == 0 { // chosen without drawing: earlier histories keep their shape
+					rcs = append([]string{}, rcs...)
+					rcs = append(rcs, "third@почта.example.invalid")
+				}
+				for _, rc := range rcs {
+					if err := d.AddRcpt(ctx, rc, smtp.RcptOptions{}); err == nil {
+						anyOK = true
+					} else if reqtls {
+						refusedReqTLS++
+					}
+				}
+				bodyOK := false
+				if anyOK {
+					hdr := textproto.Header{}
+					hdr.Add("Subject", "x")
+					bodyOK = d.Body(ctx, hdr, buffer.MemoryBuffer{Slice: []byte("hi\r\n")}) == nil
+				}
+				if bodyOK && !r.chance(15) {
+					d.Commit(ctx)
+				} else {
+					d.Abort(ctx)
+				}
+			}()
 		}
 		// every permit must be back: the two of each scope can be taken at once
 		leaks := 0
@@ -137,11 +148,18 @@ func TestVerif_C11Remote(t *testing.T) {
 			}
 			leaks += 2 - gotDest
 		}
-		tgt.Close()
+		func() {
+			defer func() {
+				if p := recover(); p != nil {
+					panics++
+				}
+			}()
+			tgt.Close()
+		}()
 		if srv != nil {
 			srv.Close()
 		}
-		out.Case(fmt.Sprintf("CLeak %s", cN(leaks)))
+		out.Case(fmt.Sprintf("CLeak %s", cN(leaks+100*panics)))
 	}
 	out.Stat("requiretls-refusals", refusedReqTLS)
 }
